@@ -8,6 +8,8 @@ from .. import bits, fields
 from ..core import call_attr, calls_in, const, dotted, is_const, kwarg, norm, slice_parts, text, walk_local
 
 EXPLANATION = [
+    'C01.wire-fields-init: every dataclass field that carries wire metadata is a constructor argument (no init=False): parsers build objects with cls(**fields) and serialisers read the instance dict.',
+    'C01.class-identity: no packet class registered by a decorator inherits from another registered class without stating its own code (the registering decorators derive code and name only when the class does not have them yet, so the inherited ones would be used and the parent replaced in the table).',
     'C01.decorator-order: every HCI packet class that is a dataclass and is registered by a decorator is made a dataclass first (innermost decorator), so the registration decorator sees its fields and builds the field table.',
     'C01.zero-valid: fields declared `int | None` in the anchored modules are tested for presence with `is None` / `is not None`, never by truthiness, so 0 (sequence number 0, time stamp 0, length 0) is handled like any other value.',
     'C01.signed-names: every HCI field named *rssi* or *tx_power* is declared with a signed spec (they are signed octets in the specification).',
@@ -627,7 +629,19 @@ def decorator_order_rule(ctx):
     g.decorator_order(ctx, 'C01.decorator-order', ['bumble.hci'])
 
 
+def class_identity_rule(ctx):
+    from ..generic_rules import registered_class_identity
+    registered_class_identity(ctx, 'C01.class-identity', ['bumble.hci'])
+
+
+def wire_fields_init_rule(ctx):
+    from ..generic_rules import wire_fields_init
+    wire_fields_init(ctx, 'C01.wire-fields-init', ['bumble.hci'])
+
+
 RULES = [
+    ('C01.wire-fields-init', wire_fields_init_rule),
+    ('C01.class-identity', class_identity_rule),
     ('C01.decorator-order', decorator_order_rule),
     ('C01.zero-valid', zero_valid_rule),
     ('C01.signed-names', signed_names),
